@@ -93,7 +93,10 @@ pub enum TxnState {
 
 use eyre::{bail, Result};
 use parking_lot::Mutex;
+#[cfg(not(kahflane_turdb_verif_sched))]
 use std::sync::atomic::{AtomicU64, Ordering};
+#[cfg(kahflane_turdb_verif_sched)]
+use shuttle::sync::atomic::{AtomicU64, Ordering};
 
 pub const MAX_CONCURRENT_TXNS: usize = 64;
 
